@@ -284,9 +284,14 @@ func (h *c09cH) expected(f *c09cFn, args []g.Value, nfixed, xRets int) (exp []fu
 		if f.variadic && j == len(f.ptys)-1 {
 			extras := args[nfixed:]
 			et := c09cTys[f.ptys[j]].tag
-			desc = append(desc, fmt.Sprintf("slice of %d x tag %d", len(extras), et))
+			// no surplus argument: the NIL slice of the variadic type (no object part); otherwise a new slice
+			if len(extras) == 0 {
+				desc = append(desc, fmt.Sprintf("nil slice of tag %d", et))
+			} else {
+				desc = append(desc, fmt.Sprintf("slice of %d x tag %d", len(extras), et))
+			}
 			exp = append(exp, func(v g.Value) bool {
-				if g.VerifTag(v) != et<<8|128 || v.Len() != len(extras) {
+				if g.VerifTag(v) != et<<8|128 || v.Len() != len(extras) || g.VerifHasObj(v) != (len(extras) > 0) {
 					return false
 				}
 				for i, e := range extras {
@@ -713,6 +718,9 @@ func c09cModelProgram(r *rng) string {
 	m.line("func vsum(base int, xs ...int) int {\n\tfor _, x := range xs {\n\t\tbase += x\n\t}\n\tif len(xs) > 0 {\n\t\txs[0] = 99\n\t}\n\treturn base\n}")
 	m.line("func vcat(sep string, xs ...string) string {\n\tres := \"\"\n\tfor _, x := range xs {\n\t\tres = res + x + sep\n\t}\n\treturn res\n}")
 	m.line("func vhalf(xs ...float64) bool {\n\tif len(xs) == 0 {\n\t\treturn false\n\t}\n\treturn xs[0]/2 > 1\n}")
+	// a variadic parameter without surplus arguments is nil (no slice is built); with surplus or a spread slice it is not
+	m.line("func vnil(xs ...int) bool { return xs == nil }")
+	m.line("func vnilS(base string, xs ...string) bool { return xs == nil }")
 	m.line("func sum(n int) int {\n\tif n == 0 {\n\t\treturn 0\n\t}\n\treturn n + sum(n-1)\n}")
 	m.line("func even(n int) bool {\n\tif n == 0 {\n\t\treturn true\n\t}\n\treturn odd(n - 1)\n}")
 	m.line("func odd(n int) bool {\n\tif n == 0 {\n\t\treturn false\n\t}\n\treturn even(n - 1)\n}")
@@ -798,6 +806,7 @@ func c09cModelProgram(r *rng) string {
 	m.line("\tfmt.Println(vsum(1), vsum(1, 2), vsum(1, 2, 3, 4), vsum(vi, vl...), vl[0])")
 	m.line("\tfmt.Println(vcat(\"-\"), vcat(\"-\", \"a\"), vcat(\"+\", vs, \"b\", \"c\"))")
 	m.line("\tfmt.Println(vhalf(), vhalf(3), vhalf(2, 9), vhalf(vf))")
+	m.line("\tvar nl []int\n\tfmt.Println(vnil(), vnil(4), vnil(4, 5), vnil(vl...), vnil(nl...), vnil([]int{}...), vnilS(\"b\"), vnilS(\"b\", vs))")
 	m.line("\tf := dbl\n\tfmt.Println(f(3), apply(f, 4), gf(5))\n\tf = trp\n\tgf = trp\n\tfmt.Println(f(3), apply(f, 4), apply(trp, 1), gf(5))")
 	m.line("\tfmt.Println(sum(%d), even(%d), odd(%d))", depth, depth, depth+1)
 	m.line("\tla, lb := locals(%d, \"q\")\n\tfmt.Println(la, lb)", 5+r.intn(40))
